@@ -79,7 +79,9 @@ ODD_AREA_FORMULAS = ['=' + u.format(a=a, b=b) for u in AREA_USES for a in ODD_AR
 # every argument position of every supported function takes, in turn, an argument of every kind (the other positions keep an ordinary one)
 ARG_KINDS = ['1', '-2.5', '0', '"x"', '""', 'TRUE', 'A1', 'Z99', 'A1:C1', 'A3:A5', 'A3:B5', 'A:A', 'A:B', 'S2!A1', 'S2!A1:B2', "'my sheet'!B:B", '$A$1', '$A$1:$B$2', 'A1%',
              '-A1', '(A1)', '1/0', 'SUM(A1:C1)', 'IF(A1>1,A1:C1,B1)', 'DATE(2024,1,2)', '"#N/A"', 'A1:A1', '""&A2', 'A1=1', 'TODAY()', 'INDEX(A3:B5,0,1)', 'IFERROR(A3:A5,0)',
-             '1e308*10', '"2024-01-15"', '">"&A1', '"a*"', 'A2', 'J8', 'XFD1', 'A1048576', 'A1:XFD1', '-"5"', '(A3:A5)', 'A3:A5&"x"']
+             '1e308*10', '"2024-01-15"', '">"&A1', '"a*"', 'A2', 'J8', 'XFD1', 'A1048576', 'A1:XFD1', '-"5"', '(A3:A5)', 'A3:A5&"x"',
+             # functions without arguments and functions whose code is not text-like inside the translator
+             'COLUMN()', 'COLUMN(B1)', 'TRUE()', 'FALSE()', 'COLUMN(A1:C1)', 'ADDRESS(1,1)', 'COUNTBLANK(A1:C1)', 'ROUNDUP(A1)', 'LEFT(A2)']
 
 
 def arg_sweep():
